@@ -23,6 +23,11 @@ Decided by correspondence ONLY (no model has two execution modes; a fact about X
       S1 (and S2) stepped, S1's public state compared after every step with a reference built
       alone; no mutable object may be shared (`is`) between S1 and S2; histories of
       constructions / steps of default-policy PGM solvers against SharedDefault.v inside Coq.
+  (I) re-attachment: for every sub-problem solver class ONE solver object attached to a first
+      ADMM (stepped) and then to a second ADMM sharing the operator OBJECTS but differing in
+      rho_list / f.scale (c*f, set_scale) / f.W / y / all (and: other operator objects of equal
+      values); the second ADMM's public state after every step = that of the same ADMM built
+      alone with a fresh solver (Reattach.v: reattach_spec, idkeyed_refuted).
 """
 from __future__ import annotations
 
@@ -38,7 +43,7 @@ import numpy as np
 from vf.common import Ctx, Broken, coq_eval_shards, parse_eval_nat_list, qlit, zlit, coq_list, parse_evals
 
 HEADER = """From Coq Require Import List Bool Arith ZArith QArith.
-From SV Require Import C19.Cache C19.TVNorm C19.Loss C19.Random C19.Defaults C19.SharedDefault.
+From SV Require Import C19.Cache C19.TVNorm C19.Loss C19.Random C19.Defaults C19.SharedDefault C19.Reattach.
 Import ListNotations.
 Open Scope nat_scope.
 """
@@ -1603,6 +1608,147 @@ def run_sd_impl(case):
 
 
 # =====================================================================================
+# (I) re-attachment: ONE sub-problem solver object attached to several ADMM objects in turn
+# =====================================================================================
+
+_I_M = np.array([[1.0, 0.5, -0.25], [0.5, 2.0, 0.75], [-1.0, 0.25, 1.5], [0.75, -0.5, 1.0]])
+_I_P = np.array([[1.0, -1.0, 0.0], [0.0, 1.0, -1.0], [0.5, 0.0, 1.0]])
+_I_H = np.array([[1.0, 0.5], [0.25, -0.5]])
+REATTACH_VARIANTS = {          # what differs from the first ADMM (rho 1, scale 1/2, no W, data y0)
+    "rho": {"rho": 3.0}, "scale-mul": {"scale": 2.0, "how": "mul"}, "scale-set": {"scale": 2.0, "how": "set_scale"},
+    "W": {"W": True}, "y": {"y": 1}, "all": {"rho": 3.0, "scale": 2.0, "how": "mul", "W": True, "y": 1},
+    "other-operator-objects": {"new_ops": True},
+    "other-operator-objects-all": {"new_ops": True, "rho": 3.0, "scale": 2.0, "how": "mul", "W": True, "y": 1},
+}
+
+
+def reattach_catalogue():
+    """solver name -> (problem kind, constructor of a NEW solver object)"""
+    from scico.optimize.admm import (LinearSubproblemSolver, GenericSubproblemSolver, MatrixSubproblemSolver,
+                                     CircularConvolveSolver, FBlockCircularConvolveSolver,
+                                     G0BlockCircularConvolveSolver)
+    return {
+        "MatrixSubproblemSolver-lu": ("matrix", lambda: MatrixSubproblemSolver()),
+        "MatrixSubproblemSolver-cholesky": ("matrix", lambda: MatrixSubproblemSolver(solve_kwargs={"cho_factor": True})),
+        "LinearSubproblemSolver-scico": ("matrix", lambda: LinearSubproblemSolver(cg_kwargs={"tol": 1e-10, "maxiter": 50})),
+        "LinearSubproblemSolver-jax": ("matrix", lambda: LinearSubproblemSolver(cg_kwargs={"tol": 1e-10, "maxiter": 50},
+                                                                             cg_function="jax")),
+        "CircularConvolveSolver": ("conv", lambda: CircularConvolveSolver()),
+        "FBlockCircularConvolveSolver": ("fblock", lambda: FBlockCircularConvolveSolver()),
+        "G0BlockCircularConvolveSolver": ("g0block", lambda: G0BlockCircularConvolveSolver()),
+        "GenericSubproblemSolver": ("matrix", lambda: GenericSubproblemSolver()),
+    }
+
+
+def reattach_ops(kind):
+    """NEW operator objects (equal values on every call)"""
+    import scico.numpy as snp
+    from scico import linop
+    f64 = np.float64
+    if kind == "matrix":
+        return {"A": linop.MatrixOperator(snp.array(_I_M)), "C": [linop.MatrixOperator(snp.array(_I_P))]}
+    if kind == "conv":
+        return {"A": linop.CircularConvolve(snp.array(_I_H), (4, 4), input_dtype=f64),
+                "C": [linop.FiniteDifference((4, 4), input_dtype=f64, circular=True)]}
+    psf = np.zeros((2, 3, 3))
+    psf[0, 1] = [0.5, 1.0, 0.25]
+    psf[1, :, 1] = [1.0, 0.5, -0.25]
+    Cc = linop.CircularConvolve(h=snp.array(psf), input_shape=(2, 4, 4), input_dtype=f64, ndims=2)
+    S = linop.Sum(input_shape=(2, 4, 4), axis=0, input_dtype=f64)
+    return {"A": S @ Cc, "C": [linop.Identity((2, 4, 4), input_dtype=f64)]}
+
+
+def reattach_admm(kind, ops, par, solver):
+    import scico.numpy as snp
+    from scico import linop, functional, loss
+    from scico.optimize import ADMM
+    A = ops["A"]
+    oshape = tuple(A.output_shape)
+    n = int(np.prod(oshape))
+    y = snp.array(((np.arange(n) % 5) / 4.0 - 0.5 + 0.75 * par.get("y", 0) * ((np.arange(n) % 3) - 1)).reshape(oshape))
+    kw = {}
+    if par.get("W"):
+        kw["W"] = linop.Diagonal(snp.array((0.5 + (np.arange(n) % 4) / 4.0).reshape(oshape)))
+    f = loss.SquaredL2Loss(y=y, A=A if kind != "g0block" else None, **kw)
+    if "scale" in par:
+        if par["how"] == "mul":
+            f = (par["scale"] / 0.5) * f
+        else:
+            f.set_scale(par["scale"])
+    ishape = tuple(A.input_shape)
+    x0 = snp.array(((np.arange(int(np.prod(ishape))) % 7) / 8.0).reshape(ishape))
+    g = 0.25 * functional.L1Norm()
+    rho = par.get("rho", 1.0)
+    if kind == "g0block":
+        return ADMM(f=functional.ZeroFunctional(), g_list=[f, g], C_list=[A] + ops["C"], rho_list=[1.0 + (rho - 1.0) / 4, rho],
+                    x0=x0, subproblem_solver=solver)
+    return ADMM(f=f, g_list=[g], C_list=ops["C"], rho_list=[rho], x0=x0, subproblem_solver=solver)
+
+
+def run_reattach(ctx, sname, vname, k):
+    kind, mks = reattach_catalogue()[sname]
+    par = REATTACH_VARIANTS[vname]
+    tol = 1e-7 if sname.startswith("Generic") else 1e-12
+
+    def steps(o):
+        sts = [public_state(o)]
+        for _ in range(k):
+            o.step()
+            sts.append(public_state(o))
+        return sts
+
+    def used_run():
+        ops = reattach_ops(kind)
+        sv = mks()
+        first = reattach_admm(kind, ops, {}, sv)
+        first.step()
+        second = reattach_admm(kind, reattach_ops(kind) if par.get("new_ops") else ops, par, sv)
+        return steps(second)
+    used = outcome(used_run)
+    ref = outcome(lambda: steps(reattach_admm(kind, reattach_ops(kind), par, mks())))
+    ctx.count("reattach", {"solver": sname, "variant": vname, "steps": k})
+    inp = {"solver": sname, "variant": vname, "differs_in": par, "steps": k}
+    if used[0] == "exc" or ref[0] == "exc":
+        if used != ref:
+            ctx.violation("reattach:" + sname, "a re-attached solver raises / does not raise unlike a fresh solver", inp,
+                          expected=str(ref[:1]) + str(ref[1] if ref[0] == "exc" else ""),
+                          observed=str(used[:1]) + str(used[1] if used[0] == "exc" else ""), oracle="fresh solver, ADMM built alone")
+        elif vname in ("rho", "all"):
+            ctx.obligation(False, f"re-attachment scenario {sname}/{vname} could not be executed", str(ref[1]))
+        return
+    for j, (a, b) in enumerate(zip(used[1], ref[1])):
+        for key in sorted(set(a) | set(b)):
+            ok, why = close(a[key], b[key], tol) if key in a and key in b else (False, "attribute in only one of the two")
+            if not ok:
+                ctx.violation("reattach:" + sname,
+                              "iterates of an ADMM whose sub-problem solver object was attached to another ADMM before differ "
+                              "from those of the same ADMM built alone with a fresh solver",
+                              dict(inp, attribute=key, after_steps=j),
+                              expected=str(np.asarray(blocks_of(b.get(key, 0.0))[0]).ravel()[:4]),
+                              observed=why + " " + str(np.asarray(blocks_of(a.get(key, 0.0))[0]).ravel()[:4]),
+                              oracle="Reattach.v reattach_spec / fresh solver, ADMM built alone")
+                return
+
+
+def check_reattach(ctx, rng):
+    names = sorted(reattach_catalogue())
+    allv = list(REATTACH_VARIANTS)
+    for sname in names:
+        if ctx.quick:
+            # quick tier: rho, everything, and one seed-dependent further variant (all 8 in the thorough tier)
+            vs = ["rho", "all", rng.choice(["scale-mul", "scale-set", "W", "y", "other-operator-objects",
+                                             "other-operator-objects-all"])]
+            if sname.startswith("Generic"):
+                vs = ["all"]
+        else:
+            vs = allv
+        for v in vs:
+            r = outcome(lambda: run_reattach(ctx, sname, v, 1 if sname.startswith("Generic") else ctx.n(1, 3)))
+            if r[0] == "exc":
+                ctx.obligation(False, f"re-attachment scenario {sname}/{v} crashed", r[1])
+
+
+# =====================================================================================
 # run / replay
 # =====================================================================================
 
@@ -1810,6 +1956,8 @@ def run(ctx: Ctx):
     mark("G-solvers")
     check_interleaved(ctx, rng)
     mark("H-interleaved")
+    check_reattach(ctx, rng)
+    mark("I-reattach")
     ctx.notes.append("wall seconds per stream: " + ", ".join(f"{b[0]} {b[1] - a[1]:.1f}" for a, b in zip(marks, marks[1:])))
 
     # shared mutable defaults of the whole library are what they were at the start
@@ -1844,6 +1992,11 @@ def replay(ctx: Ctx, rec):
         cat = interleave_catalogue()
         run_interleaved_config(c2, c["config"], cat[c["config"]], c.get("variant", 0), c.get("steps", 2))
         return not any(v["unit"] == unit for v in c2.violations)
+    if unit.startswith("reattach:"):
+        c2 = Ctx(ctx.pid, ctx.tier, ctx.seed)
+        c2.known = []
+        run_reattach(c2, c["solver"], c["variant"], c.get("steps", 2))
+        return not c2.violations and not c2.broken
     if unit == "default-step-size-policy":
         obs = run_sd_impl(c)
         body = ("Definition cases := [(" + coq_list([f"({a}, {zl(v)})" for a, v in c["ops"]]) + ", "
